@@ -49,33 +49,7 @@ func init() {
 			c.Check("C17/no-inplace/"+s.Fn.Name, "no element of the installed key list is overwritten in place", s.Pos, false, "element store into Keyring.keys in "+s.Fn.Name)
 		}
 
-		// 2b. every list handed to the install helper is derived from the installed list
-		rule2b := "the install helper is only ever given the installed list itself, a fresh copy assembled from its sub-slices, or the installed list plus one key that was validated and compared against every installed key (so duplicates and unvalidated keys can never be installed, whoever the caller is)"
-		c.Rule(rule2b)
-		ninst := 0
-		for _, s := range c.G.Callers(install) {
-			if s.Call == nil {
-				c.Check("C17/install-callers/"+s.Fn.Name, rule2b, s.Pos, false, "install helper referenced as a value in "+s.Fn.Name)
-				continue
-			}
-			x := c.flow(s.Fn, map[string]string{})
-			for _, e := range x.Effects {
-				if e.Class != "CALL:"+install.Name || e.Pos != s.Call.Pos() {
-					continue
-				}
-				ninst++
-				ok, why := derivedFromInstalled(untok(e.Detail["arg0"]))
-				if ok && strings.Contains(untok(e.Detail["arg0"]), ",key)") {
-					// plus-one-key form: needs validation and the duplicate scan on this path
-					v, okv := cubeAtom(e.Cube, "ValidateKey(key)", "==nil")
-					if !okv || v != "T" || !rangesKeysComparing(p, s.Fn) {
-						ok, why = false, "a new key is installed without validation and duplicate scan"
-					}
-				}
-				c.Check("C17/install-callers/"+s.Fn.Name, rule2b, e.Pos, ok, why+": "+untok(e.Detail["arg0"]))
-			}
-		}
-		c.Floor("install helper call sites", ninst, 3)
+		checkInstallCallers(c, "C17", install)
 
 		// 3. no in-place mutation of (or append onto a re-slice of) the installed list, while the getter hands it out
 		rule3 := "a key list handed to callers is never altered afterwards: no append onto a re-slice of the installed list (which writes through its backing array)"
@@ -404,6 +378,41 @@ func checkValidateKey(c *Ctx) {
 			c.Check("C17/validate/error-otherwise", rule, ex.Pos, !valid, "rejects a valid length under {"+gea.CubeString(ex.Cube)+"}")
 		}
 	}
+}
+
+// checkInstallCallers: every list handed to the install helper is derived from
+// the installed list (shared with C14: a ring that can hold duplicates keeps
+// accepting traffic under a key after RemoveKey dropped one copy).
+func checkInstallCallers(c *Ctx, prop string, install *core.Func) {
+	p := c.P
+	// 2b. every list handed to the install helper is derived from the installed list
+	rule2b := "the install helper is only ever given the installed list itself, a fresh copy assembled from its sub-slices, or the installed list plus one key that was validated and compared against every installed key (so duplicates and unvalidated keys can never be installed, whoever the caller is)"
+	c.Rule(rule2b)
+	ninst := 0
+	for _, s := range c.G.Callers(install) {
+		if s.Call == nil {
+			c.Check(prop+"/install-callers/"+s.Fn.Name, rule2b, s.Pos, false, "install helper referenced as a value in "+s.Fn.Name)
+			continue
+		}
+		x := c.flow(s.Fn, map[string]string{})
+		for _, e := range x.Effects {
+			if e.Class != "CALL:"+install.Name || e.Pos != s.Call.Pos() {
+				continue
+			}
+			ninst++
+			ok, why := derivedFromInstalled(untok(e.Detail["arg0"]))
+			if ok && strings.Contains(untok(e.Detail["arg0"]), ",key)") {
+				// plus-one-key form: needs validation and the duplicate scan on this path
+				v, okv := cubeAtom(e.Cube, "ValidateKey(key)", "==nil")
+				if !okv || v != "T" || !rangesKeysComparing(p, s.Fn) {
+					ok, why = false, "a new key is installed without validation and duplicate scan"
+				}
+			}
+			c.Check(prop+"/install-callers/"+s.Fn.Name, rule2b, e.Pos, ok, why+": "+untok(e.Detail["arg0"]))
+		}
+	}
+	c.Floor("install helper call sites", ninst, 3)
+
 }
 
 // checkRemoveExact: RemoveKey hands the install helper the installed list
